@@ -24,6 +24,15 @@ def flows_for(gp, pname, stream, batches, cpp=True):
         if k:
             cmd["k"] = k
         flows.append(("python write mode %s" % mode, gp.py_call(cmd)))
+    # the Python NDJSON reader ends a stream at the first line that belongs to another step: items that are null, empty or
+    # otherwise look like "nothing" are items.  (Errors of the NDJSON path itself are the business of C02: only a completed
+    # round trip is judged here, by the items it delivers.)
+    nd = gp.py_call({"proto": pname, "fin": "binary", "fout": "ndjson", "data": stream.hex(), "mode": "copy"}) if gp.ndjson else {"ok": False}
+    if nd["ok"]:       # only the crafted Edge package (exactly representable numbers; nullable, empty and defaulted stream items)
+        for mode in ("copy", "single"):
+            back = gp.py_call({"proto": pname, "fin": "ndjson", "fout": "binary", "data": nd["out"], "mode": mode})
+            if back["ok"]:
+                flows.append(("python ndjson reader, write mode %s" % mode, back))
     if cpp:
         for b in batches:
             c = gp.cpp_call(pname, "binary", "binary", stream, batch=b)
